@@ -306,6 +306,22 @@ def coherent (chunks : List Str) (s : Str) (length : Nat) : Bool :=
   | .ok lines => coherentFrom (parse s).maxSize none lines
   | _ => true
 
+/-- a character that can continue a colour code -/
+def contChar (c : Char) : Bool := isDigit c || c = ','
+
+/-- every line after the first is non-empty and does not begin with a digit or a comma -/
+def cleanStarts (lines : List Str) : Bool :=
+  lines.tail.all fun l => match l with
+    | [] => false
+    | x :: _ => !contChar x
+
+/-- `ircutils.wrap(s, length)` never starts a line (after the first) with a digit or a comma — the
+decidable condition under which the recomputed contexts are provably those of the text -/
+def cleanWrap (chunks : List Str) (s : Str) (length : Nat) : Bool :=
+  match byteTextWrap chunks (length - (parse s).maxSize) with
+  | .ok lines => cleanStarts lines
+  | _ => true
+
 /-! ## callbacks._makeReply -/
 
 /-- everything `_makeReply` and the length arithmetic of `reply` look at -/
